@@ -117,11 +117,12 @@ package nbio
 // ---- the connection monitor: everything the mutex protects, and what holds whenever it is free
 //@ protected Conn by mux: left, writeList, closed, isWAdded, closeErr, rTimer, wTimer, gHead, gTail, gBHead, gBTail, gSeq0, gAcc, kSent[fd], kEv[fd], kMods[fd], elems(writeList), toWrite.buf, toWrite.offset, toWrite.fd, toWrite.remain, toWrite.gEnd, toWrite.gBEnd, toWrite.gSeq
 //@ monghost lock { self.gClosedAtLock = self.closed; self.gFlipDone = false }
-//@ monghost unlock { self.gTok = self.gTok || (!self.gClosedAtLock && self.closed && !self.gFlipDone) }
+//@ monghost unlock { self.gTok = self.gTok || (!self.gClosedAtLock && self.closed && !self.gFlipDone); self.gSawClosed = self.gSawClosed || self.closed }
 //@ moninv queue: !self.closed ==> QueueInv(self)                                          // prop C01 C11 C17
 //@ moninv acct: !self.closed ==> self.gAcc == kSent[self.fd] + pend(self)                 // prop C01
 //@ moninv arm: !self.closed ==> ArmInv(self)                                             // prop C04
 //@ moninv mono: self.gClosedAtLock ==> self.closed                                       // prop C03
+//@ moninv stays: self.gSawClosed ==> self.closed                                         // prop C03
 //@ moninv nop: self.p == nil ==> self.writeList == nil                                   // prop C03
 //@ moninv bound: !self.closed && self.p != nil && self.p.g != nil && maxw(self) > 0 ==> self.left <= maxw(self)   // prop C17
 
@@ -330,6 +331,7 @@ package nbio
 //@   ensures c.p == old(c.p) && c.fd == old(c.fd) && c.typ == old(c.typ) && c.p.g == old(c.p.g) && c.p.epfd == old(c.p.epfd)
 //@   ensures c.p.g.connsUnix == old(c.p.g.connsUnix) && c.p.g.Config.EpollMod == old(c.p.g.Config.EpollMod) && c.p.g.Config.EPOLLONESHOT == old(c.p.g.Config.EPOLLONESHOT) && c.p.g.Config.BodyAllocator == old(c.p.g.Config.BodyAllocator)
 //@   ensures kEv[c.fd] == old(kEv[c.fd]) && !holds(c.mux)
+//@   ensures c.gNotified == old(c.gNotified) + ite(c.closed && !old(c.closed), 1, 0) && (old(c.closed) ==> c.closed) && c.gTok == old(c.gTok) && (c.closed ==> c.gSawClosed) && (old(c.gSawClosed) ==> c.gSawClosed)
 //@   ensures !c.closed ==> QueueInv(c) && (len(c.writeList) > 0 ==> c.isWAdded)
 //@ fieldfunc nbio.Engine.onUDPListen
 //@   params c
@@ -337,13 +339,26 @@ package nbio
 //@   ensures c.p == old(c.p) && c.fd == old(c.fd) && c.typ == old(c.typ) && c.p.g == old(c.p.g) && c.p.epfd == old(c.p.epfd)
 //@   ensures c.p.g.connsUnix == old(c.p.g.connsUnix) && c.p.g.Config.EpollMod == old(c.p.g.Config.EpollMod) && c.p.g.Config.EPOLLONESHOT == old(c.p.g.Config.EPOLLONESHOT) && c.p.g.Config.BodyAllocator == old(c.p.g.Config.BodyAllocator)
 //@   ensures kEv[c.fd] == old(kEv[c.fd]) && !holds(c.mux)
+//@   ensures c.gNotified == old(c.gNotified) + ite(c.closed && !old(c.closed), 1, 0) && (old(c.closed) ==> c.closed) && c.gTok == old(c.gTok) && (c.closed ==> c.gSawClosed) && (old(c.gSawClosed) ==> c.gSawClosed)
 //@   ensures !c.closed ==> QueueInv(c) && (len(c.writeList) > 0 ==> c.isWAdded)
 
 //@ func (*poller).addConn
-//@   props C04
+//@   props C04 C03
 //@   safety index slice nil div assert panic make lock lockset
 //@   requires p.g != nil && p.g.Config.BodyAllocator != nil && c != nil && c.fd >= 0 && !holds(c.mux) && kEv[c.fd] < 0 && c.p == nil && c.writeList == nil && !c.gTok
 //@   ensures arm: result == nil && !c.closed ==> kEv[c.fd] >= 0 && ArmInv(c)                 // prop C04
+//@   note lifecycle (C03): a connection that cannot be registered is closed, and whatever happens here it gets at most one close notification
+//@   ensures failclosed: result != nil ==> c.closed                                           // prop C03
+//@   ensures atmostonce: c.gNotified <= old(c.gNotified) + 1                                   // prop C03
+//@   assigns everything
+
+//@ func (*poller).addDialer
+//@   props C03
+//@   note isWAdded is set here without the mutex: the descriptor is not registered yet, so no other thread can reach the connection through the poller (lockset discipline not claimed for this function)
+//@   safety index slice nil div assert panic make
+//@   requires p.g != nil && p.g.Config.BodyAllocator != nil && c != nil && c.fd >= 0 && !holds(c.mux) && c.p == nil && c.writeList == nil && !c.gTok && !c.closed
+//@   ensures failclosed: result != nil ==> c.closed                                           // prop C03
+//@   ensures atmostonce: c.gNotified <= old(c.gNotified) + 1                                   // prop C03
 //@   assigns everything
 
 //@ func (*Conn).ResetPollerEvent
@@ -363,6 +378,8 @@ package nbio
 // Conn.gNotified      close notifications delivered for this connection (written only by the token holder)
 // Conn.gEverClosed    (protected) closed has been observed true at an Unlock: it must stay true
 //@ ghost local Conn.gTok : Bool
+// Conn.gSawClosed    (thread-local) this thread has seen closed == true (at one of its Unlocks, or a callback it ran closed the connection): it stays true
+//@ ghost local Conn.gSawClosed : Bool
 //@ ghost local Conn.gFlipDone : Bool
 //@ ghost local Conn.gSentSnap : Int
 //@ ghost local Conn.gClosedAtLock : Bool
@@ -425,6 +442,7 @@ package nbio
 //@   requires !holds(c.mux) && Registered(c) && (c.p != nil ==> c.p.g.Config.BodyAllocator != nil) && !c.gTok && (c.p == nil ==> c.writeList == nil)
 //@   ensures closed: c.closed && !holds(c.mux)                                                     // prop C03
 //@   ensures idem: c.gClosedAtLock ==> result == nil && c.gNotified == c.gNotSnap && c.closeErr == c.gErrSnap  // prop C03
+//@   ensures snap: c.gNotSnap == old(c.gNotified) && (old(c.gSawClosed) ==> c.gClosedAtLock)          // prop C03
 //@   ensures first: !c.gClosedAtLock ==> c.closeErr == err && c.gNotified == c.gNotSnap + ite(c.p != nil && c.typ != ConnTypeUDPServer, 1, 0)   // prop C03
 //@   ensures notoken: !c.gTok                                                                // prop C03
 //@   assigns everything
@@ -538,6 +556,7 @@ package nbio
 //@   at call:IsZero#1 ghost { c.gZero = result }
 //@   at unlock#1 assert set: !c.gClosedAtLock && !c.gZero ==> c.rTimer != nil && c.wTimer != nil && tArmed[c.rTimer] && tArmed[c.wTimer]   // prop C16
 //@   at unlock#1 assert one: !c.gClosedAtLock && !c.gZero ==> (c.gRT0 != 0 ==> c.rTimer == c.gRT0) && (c.gWT0 != 0 ==> c.wTimer == c.gWT0)   // prop C16
+//@   at unlock#1 assert dur: !c.gClosedAtLock && !c.gZero ==> tDur[c.rTimer] == untilOf(t.wall, t.ext) && tDur[c.wTimer] == untilOf(t.wall, t.ext)   // prop C16
 //@   at unlock#1 assert clear: !c.gClosedAtLock && c.gZero ==> c.rTimer == nil && c.wTimer == nil && (c.gRT0 != 0 ==> !tArmed[c.gRT0]) && (c.gWT0 != 0 ==> !tArmed[c.gWT0])   // prop C16
 //@   at unlock#1 assert closednoop: c.gClosedAtLock ==> c.rTimer == c.gRT0 && c.wTimer == c.gWT0   // prop C16
 //@ func (*Conn).SetDeadline$1
@@ -563,6 +582,8 @@ package nbio
 //@   at lock#1 ghost { c.gT0 = *timer }
 //@   at call:IsZero#1 ghost { c.gZero = result }
 //@   at unlock#1 assert set: !c.gClosedAtLock && !c.gZero ==> *timer != nil && tArmed[*timer] && (c.gT0 != 0 ==> *timer == c.gT0)   // prop C16
+//@   note the timer runs for the time left until the deadline given (not a stale or different instant), whether it was created or renewed
+//@   at unlock#1 assert dur: !c.gClosedAtLock && !c.gZero ==> tDur[*timer] == untilOf(t.wall, t.ext)   // prop C16
 //@   at unlock#1 assert clear: !c.gClosedAtLock && c.gZero ==> *timer == nil && (c.gT0 != 0 ==> !tArmed[c.gT0])   // prop C16
 //@   at unlock#1 assert closednoop: c.gClosedAtLock ==> *timer == c.gT0                       // prop C16
 //@ func (*Conn).setDeadline$1
